@@ -167,7 +167,36 @@ def positions(rng, pid_sorted: np.ndarray, geom: str) -> np.ndarray:
     raise ValueError(geom)
 
 
+def real_files():
+    """Real morphologies shipped with the repository (examples/data), parsed by the harness's own
+    reader (not the library's): [(name, pid, type, xyz, r)] with parents before children."""
+    import glob
+    import os
+
+    root = os.path.join(os.path.realpath(os.environ.get("RV_REPO", "/repo")), "examples", "data")
+    out = []
+    for path in sorted(glob.glob(os.path.join(root, "*.swc"))):
+        rows = []
+        with open(path, encoding="utf-8", errors="replace") as fh:
+            for line in fh:
+                t = line.split()
+                if len(t) >= 7 and not t[0].startswith("#"):
+                    rows.append((int(t[0]), int(t[1]), float(t[2]), float(t[3]), float(t[4]),
+                                 float(t[5]), int(t[6])))
+        if len(rows) < 2:
+            continue
+        idx = {r[0]: i for i, r in enumerate(rows)}
+        pid = np.array([idx[r[6]] if r[6] != -1 else -1 for r in rows], dtype=np.int64)
+        if (pid >= np.arange(len(rows))).any() or (pid == -1).sum() != 1 or pid[0] != -1:
+            continue  # only single-rooted, parent-first files serve as seeds
+        out.append((os.path.basename(path), pid, np.array([r[1] for r in rows]),
+                    np.array([r[2:5] for r in rows]), np.array([r[5] for r in rows])))
+    return out
+
+
 def spec_from_recipe(rc: dict) -> dict:
+    if rc.get("shape") == "real":
+        return _real_spec(rc)
     rng = np.random.default_rng(int(rc["seed"]))
     pid = parent_array(rng, rc["shape"], rc["n"])
     n = len(pid)
@@ -206,6 +235,35 @@ def spec_from_recipe(rc: dict) -> dict:
         else:
             spec[f"e{k}"] = (tag * 0.25 + 0.5 + k).astype(np.float32)
     return spec
+
+
+def _real_spec(rc: dict) -> dict:
+    rng = np.random.default_rng(int(rc["seed"]))
+    files = {f[0]: f for f in real_files()}
+    name, pid, typ, xyz, r = files[rc["file"]]
+    n = len(pid)
+    r = np.where(r > 0, r, 0.1)
+    tag = np.arange(n, dtype=np.int64)
+    if rc.get("numbering", "sorted") == "perm":
+        pid, old_of_new = permute_numbering(rng, pid)
+        xyz, r, typ, tag = xyz[old_of_new], r[old_of_new], typ[old_of_new], tag[old_of_new]
+    spec = {"pid": pid.astype(np.int32), "type": typ.astype(np.int32),
+            "x": xyz[:, 0].astype(np.float32), "y": xyz[:, 1].astype(np.float32),
+            "z": xyz[:, 2].astype(np.float32), "r": r.astype(np.float32),
+            "tag": tag.astype(np.int32)}
+    return spec
+
+
+def real_recipes(rng, max_n=None):
+    """One recipe per usable example file (sorted and permuted numbering alternate)."""
+    out = []
+    for name, pid, *_ in real_files():
+        if max_n is not None and len(pid) > max_n:
+            continue
+        out.append({"shape": "real", "file": name, "n": int(len(pid)), "geom": "real",
+                    "numbering": str(rng.choice(["sorted", "perm"])), "types": "file",
+                    "extras": 0, "seed": int(rng.integers(0, 2**31 - 1))})
+    return out
 
 
 def build(spec: dict, *, with_tag: bool = True, source: str = "", comments=None):
